@@ -415,6 +415,11 @@ def symbolic_comprehension(eng, n, fr, kind, first):
             return hook(eng, n, fr, kind, first)
         raise Unsupported("filtered / nested comprehension over a symbolic sequence")
     length, getter = as_sequence(eng, first)
+    bulk = _bulk_dict_pop(eng, n, fr, kind, length, getter)
+    if bulk is not None:
+        if isinstance(first, Iter):
+            first.consumed = True
+        return bulk
     i = z3.Int(fresh_name("ci"))
     sub = Frame(parent=fr, globs=fr.globs, func=fr.func)
     eng.assign(gens[0].target, getter(Sym(i, "int")), sub)
@@ -470,6 +475,45 @@ def symbolic_comprehension(eng, n, fr, kind, first):
     if kind == "list":
         return p
     raise Unsupported("set comprehension over a symbolic sequence")
+
+
+def _bulk_dict_pop(eng, n, fr, kind, length, getter):
+    """The idiom  [d.pop(x) for x in S]  over a symbolic-length S and a symbolic scalar dict d.
+    CPython pops the keys one after the other: the j-th pop raises KeyError unless its key is present and was not
+    popped before.  Both conditions become obligations; then the result is the list of the old values in order
+    and d loses exactly those keys (ghost pp(q) = the position that popped q)."""
+    if kind != "list" or eng.spec_mode or getattr(eng, "pure_mode", 0):
+        return None
+    g, e = n.generators[0], n.elt
+    if not (isinstance(g.target, ast.Name) and isinstance(e, ast.Call) and isinstance(e.func, ast.Attribute) and e.func.attr == "pop"
+            and len(e.args) == 1 and not e.keywords and isinstance(e.args[0], ast.Name) and e.args[0].id == g.target.id):
+        return None
+    d = eng.ev(e.func.value, fr)
+    if not isinstance(d, PDict) or d.items is not None or d.vkind == "intlist":
+        return None
+    used(eng, "list-comprehension-of-dict.pop: pops in sequence order (KeyError unless every key is present and the keys are pairwise distinct)")
+    nz = length.z if isinstance(length, Sym) else zint(length)
+    k, k2, q = z3.Int(fresh_name("bp")), z3.Int(fresh_name("bq")), z3.Int(fresh_name("bk"))
+    key_at = lambda t: to_z3(getter(Sym(t, "int")), "int")
+    rng = lambda t: z3.And(t >= 0, t < nz)
+    check_frame(eng, d)
+    eng.prove(eng.site("popped-keys-present"), z3.ForAll([k], z3.Implies(rng(k), z3.Select(d.dom, key_at(k)))), "safety", "dict.pop inside a comprehension")
+    eng.prove(eng.site("popped-keys-distinct"), z3.ForAll([k, k2], z3.Implies(z3.And(rng(k), rng(k2), k < k2), key_at(k) != key_at(k2))), "safety", "dict.pop inside a comprehension")
+    tag = fresh_name("pp")
+    pp = z3.Function(tag, z3.IntSort(), z3.IntSort())
+    eng.assume(z3.ForAll([k], z3.Implies(rng(k), pp(key_at(k)) == k)))  # definitional: keys are pairwise distinct (proved above)
+    out = PList()
+    out.items, out.kinds, out.tup, out.n = None, [d.vkind], False, z3.simplify(nz)
+    out.cols = [z3.Lambda([k], z3.Select(d.val, key_at(k)))]
+    d.dom = z3.Lambda([q], z3.And(z3.Select(d.dom, q), z3.Not(z3.And(rng(pp(q)), key_at(pp(q)) == q))))
+    eng.ghost[("bulkpop", d.uid)] = (pp, key_at, nz)
+    return out
+
+
+def check_frame(eng, v):
+    from .models import check_frame as _cf
+
+    return _cf(eng, v)
 
 
 def _dict_from_pairs(eng, i, nz, kv, vv):
